@@ -3,6 +3,11 @@ use crate::{emulator::Emulator, host::Host, zx::tape::TapeImpl, Result};
 use rustzx_z80::{RegName16, Z80Bus, FLAG_CARRY, FLAG_ZERO};
 
 pub fn fast_load_tap<H: Host>(emulator: &mut Emulator<H>) -> Result<()> {
+    // move to next block. When no block is left (or the tape asset fails) the CPU
+    // must be left untouched, so the ROM loader keeps waiting as with a silent tape
+    if !emulator.controller.tape.next_block()? {
+        return Ok(());
+    }
     // So, at current moment we at 0x056C in 48K Rom.
     // AF contains some garbage. so we need to swap if with A'F'
     emulator.cpu.regs.swap_af_alt();
@@ -17,14 +22,17 @@ pub fn fast_load_tap<H: Host>(emulator: &mut Emulator<H>) -> Result<()> {
     let mut length = emulator.cpu.regs.get_reg_16(RegName16::DE);
     // parity accumulator and current byte (h, l) regs
     let (mut parity_acc, mut current_byte) = (0, 0);
-    // move to next block
-    if !emulator.controller.tape.next_block()? {
-        return Ok(());
-    }
-
     'loader: loop {
         // if we still on block
-        if let Some(byte) = emulator.controller.tape.next_block_byte()? {
+        let next_byte = match emulator.controller.tape.next_block_byte() {
+            Ok(byte) => byte,
+            Err(e) => {
+                // restore AF/AF' before reporting tape asset failure
+                emulator.cpu.regs.swap_af_alt();
+                return Err(e);
+            }
+        };
+        if let Some(byte) = next_byte {
             // set current byte, shift position and do parity check iteration
             current_byte = byte;
             parity_acc ^= current_byte;
